@@ -208,7 +208,7 @@ func init() {
 			case i == nEx+nPf:
 				commentsOnly = true
 			default:
-				alpha := append(append([]string{}, c15Alphabet...), "中", "😀", "\u00e0", "\u4e05", "\u0160", "b", "\n", "\n  ", " ")
+				alpha := append(append([]string{}, c15Alphabet...), "中", "😀", "\u00e0", "\u4e05", "\u0160", "\u00a0", "\u3000", "\u2028", "\u00a0\n", "\n\u3000", "b", "\n", "\n  ", " ")
 				for k := 0; k < c15Batch; k++ {
 					n := 6 + ctx.Rng.Intn(20)
 					var b strings.Builder
@@ -287,6 +287,6 @@ func init() {
 			}
 			return why
 		},
-		Assumptions: []string{"whitespace touching a comment and Unicode spaces other than space/tab/CR/LF are not constrained by the statement and not judged"},
+		Assumptions: []string{"whitespace touching a comment is not constrained by the statement and not judged", "whitespace is space, tab, CR and LF (the statement's alphabet); every multi-byte rune, U+00A0, U+3000 and U+2028 included, is an ordinary character (seeded runs only)"},
 	})
 }
